@@ -39,6 +39,8 @@ def runFloat (r : Req) (impl mirror : Bool) (tgt tpl : List Float) (wm : List Fl
   let (tgt, tpl) :=
     if r.score == "CAM" then
       let (m1, s1) := stats tgt; let (m2, s2) := stats tpl
+      let s1 := if s1 < r.eps then r.eps else s1   -- `be.maximum(be.std(x), eps)`
+      let s2 := if s2 < r.eps then r.eps else s2
       (tgt.map (fun x => (x - m1) / s1), tpl.map (fun x => (x - m2) / s2))
     else (tgt, tpl)
   let fA : Arr Float := ⟨r.ns, tgt.toArray⟩
